@@ -87,7 +87,7 @@ class Director:
                                      on_verdict=self.on_verdict)
             pl.is_filler = True
             self.run.players.append(pl)
-            self.sim.spawn(pl.run, role)
+            self.sim.spawn(pl.run, role, proc=role)
             name, seat2, team2, verdict = self.q.get()
             if verdict == 'seated':
                 self.seated[seat2] = team2
@@ -121,7 +121,7 @@ def spawn_requesters(sim, scn, run):
                                  pre_connect=pre, post_connect=post)
         pl.is_filler = False
         run.players.append(pl)
-        sim.spawn(pl.run, role)
+        sim.spawn(pl.run, role, proc=role)
     sim.spawn(d.main, 'director')
 
 
